@@ -108,6 +108,7 @@ fn is_segwit_text(s: &str) -> bool {
 /// canonical form of the input, and it parses under exactly one network's parameters.
 pub fn check_any_string(r: &Report, s: &str, origin: &str) -> bool {
     r.trans(1);
+    crate::engine::crash::crumb("address-parse", s.as_bytes());
     let res = guard(|| {
         let a = Address::from_str(s);
         let per: Vec<Result<Address, _>> = NETS.iter().map(|p| Address::parse_with_params(s, p)).collect();
